@@ -56,4 +56,11 @@ def histogram(cases, obs):
 
 
 def classify(c, o, msg):
+    """C04-mgm2-idle-after-commitment: mgm2, the idle cycle is one in which some variable had committed to a
+    coordinated move (it sent a go/no-go message in that cycle)"""
+    if c["algo"] != "mgm2" or "no value changed in cycle" not in msg:
+        return None
+    m = L.check_1opt(c, o)
+    if m and any(g[1] == m["cycle"] for g in o.get("gos", [])):
+        return "C04-mgm2-idle-after-commitment"
     return None
